@@ -1131,7 +1131,15 @@ impl<'a> VisitMut for Rewriter<'a> {
                     syn::Expr::MethodCall(m) => Some(m.method.to_string()),
                     _ => None,
                 };
-                let erase = callee_last.map(|n| self.await_erase_calls.contains(&n)).unwrap_or(false);
+                // awaiting a call to an `async fn` free helper that R27 will inline: the await of its future is the evaluation of its body
+                let inlined_async_helper = match &inner {
+                    syn::Expr::Call(c) => match &*c.func {
+                        syn::Expr::Path(p) if p.qself.is_none() && p.path.segments.len() == 1 =>
+                            self.inline_free.get(&p.path.segments[0].ident.to_string()).map(|h| h.sig.asyncness.is_some()).unwrap_or(false),
+                        _ => false },
+                    _ => false,
+                };
+                let erase = inlined_async_helper || callee_last.map(|n| self.await_erase_calls.contains(&n)).unwrap_or(false);
                 if self.async_projection == "call" && !erase {
                     *e = syn::parse_quote!(vx_await(#inner));
                 } else {
@@ -1282,8 +1290,46 @@ impl<'a> VisitMut for Rewriter<'a> {
                                     _ => params_ok = false,
                                 }
                             }
-                            if no_recv && !esc.0 && params_ok && h.sig.asyncness.is_none() && h.sig.generics.params.is_empty() && params.len() == c.args.len() {
+                            // an `async fn` helper / a helper that awaits is only read where the enclosing item is projected by R7 (its awaits
+                            // are then projected like the caller's own); `return`/`?` still refuse
+                            struct Esc5(bool);
+                            impl<'ast> syn::visit::Visit<'ast> for Esc5 {
+                                fn visit_expr_return(&mut self, _r: &'ast syn::ExprReturn) { self.0 = true; }
+                                fn visit_expr_try(&mut self, _r: &'ast syn::ExprTry) { self.0 = true; }
+                                fn visit_expr_closure(&mut self, _c: &'ast syn::ExprClosure) {}
+                            }
+                            let mut esc5 = Esc5(false);
+                            syn::visit::Visit::visit_block(&mut esc5, &h.block);
+                            let is_free = segs.len() == 1;
+                            let async_ok = if is_free && !self.async_projection.is_empty() { !esc5.0 } else { !esc.0 && h.sig.asyncness.is_none() };
+                            // generic free helper: type parameters only; given by the call's turbofish, else left to inference (`_`)
+                            let mut tymap: BTreeMap<String, syn::Type> = BTreeMap::new();
+                            let mut generics_ok = true;
+                            let gparams: Vec<&syn::GenericParam> = h.sig.generics.params.iter().collect();
+                            if !gparams.is_empty() && !is_free { generics_ok = false; }
+                            if !gparams.is_empty() && is_free {
+                                let tf: Option<Vec<syn::GenericArgument>> = match &fp.path.segments.last().unwrap().arguments {
+                                    syn::PathArguments::AngleBracketed(a) => Some(a.args.iter().cloned().collect()),
+                                    syn::PathArguments::None => None,
+                                    _ => { generics_ok = false; None }
+                                };
+                                for (i, gp) in gparams.iter().enumerate() {
+                                    match gp {
+                                        syn::GenericParam::Type(tp) => {
+                                            let ty: syn::Type = match &tf {
+                                                Some(v) if v.len() == gparams.len() => match &v[i] { syn::GenericArgument::Type(t) => t.clone(), _ => { generics_ok = false; syn::parse_quote!(_) } },
+                                                Some(_) => { generics_ok = false; syn::parse_quote!(_) }
+                                                None => syn::parse_quote!(_),
+                                            };
+                                            tymap.insert(tp.ident.to_string(), ty);
+                                        }
+                                        _ => generics_ok = false,
+                                    }
+                                }
+                            }
+                            if no_recv && async_ok && params_ok && generics_ok && params.len() == c.args.len() {
                                 let args: Vec<syn::Expr> = c.args.iter().cloned().collect();
+                                if !tymap.is_empty() { TySubst { map: &tymap }.visit_block_mut(&mut h.block); }
                                 let stmts = &h.block.stmts;
                                 let mut new_e: syn::Expr = syn::parse_quote!({ #( let #params = #args; )* #(#stmts)* });
                                 self.inline_depth += 1;
